@@ -201,7 +201,7 @@ inline Plan Gen(uint64_t seed)
    const int senders = cfg.pct(40) ? 1 : (cfg.pct(66) ? 2 : 3);
    const bool slave = cfg.oneIn(3);
    const bool tag = cfg.oneIn(2);
-   const int addr = (int) cfg.below(3);
+   const int addr = Rng(seed, "noaddr").oneIn(6) ? 3 : (int) cfg.below(3);   // 3: sender 0's packets arrive without a (valid) source address
    const uint32_t rxsex = cfg.oneIn(5) ? 7 : 0;
    uint32_t sex[kMaxSenders]; for (int i=0; i<kMaxSenders; i++) sex[i] = cfg.oneIn(2) ? 0 : (cfg.oneIn(3) ? 7 : 9);
    g.ts = (g.mtu >= 64)&&(cfg.oneIn(6));
@@ -471,6 +471,7 @@ struct Harness : public AbstractGatewayMessageReceiver
          S[s].excluded = (rxsex != 0)&&(S[s].sex == rxsex);
          // addr 0: one host, different ports; 1: different hosts, the same port; 2: both differ
          S[s].addr = IPAddressAndPort(IPAddress((((uint32)10)<<24) | (uint32)(1 + ((addr == 0) ? 0 : s))), (uint16)(5000 + ((addr == 1) ? 0 : s)));
+         if ((addr == 3)&&(s == 0)) S[s].addr = IPAddressAndPort();   // (a transport that cannot name this peer: an invalid address is still one distinct source)
          S[s].gw = MakeGateway(s);
       }
       R = MakeGateway(-1);
